@@ -473,6 +473,9 @@ impl LocoTrait for Consist {
             })
             .sum();
         self.state.pwr_out_max_non_reves = self.state.pwr_out_max - self.state.pwr_out_max_reves;
+        // dynamic braking capability is a limit like the others; publish it here so that it is
+        // valid in the first step of a consist that was not loaded from file
+        self.set_pwr_dyn_brake_max();
 
         Ok(())
     }
